@@ -269,6 +269,7 @@ def run(ctx):
                     ctx.mismatch('wedge-powers', case, got[:200], str(terms)[:200])
         ctx.count('driver-lines', len(lines)); ctx.count('driver-mismatches', nb)
     inplace_pass(ctx, np)
+    name_route_pass(ctx, np)
     ctx.assumptions = ['the code computes in floating point (v / j in the outer series, **0.5, numpy/sympy transcendental functions): all '
                        'comparisons are to 1e-9 relative and are tests, the exact identities are theorems about the model',
                        'array-valued operands of exp() are outside its documented domain (float, int, complex, sympy); see known findings']
@@ -307,6 +308,69 @@ def inplace_pass(ctx, np):
             # overwrite one entry in place
             i = step % 4
             x[i] = (3.0 + step) * x[(i + 1) % 4]
+
+
+def name_route_pass(ctx, np):
+    """the outer functions, sqrt, norm and normalized reached through the by-name routes (an algebra with a wrapper, functions
+    compiled by alg.register) in an interleaved order, against the plain method calls on a plain algebra"""
+    from kingdon import MultiVector
+    rng = ctx.rng
+    ident = lambda f: f
+    def r_osin(x): return x.outersin()
+    def r_ocos(x): return x.outercos()
+    def r_oexp(x): return x.outerexp()
+    def r_otan(x): return x.outertan()
+    def r_normalized(x): return x.normalized()
+    def r_norm(x): return x.norm()
+    def r_sqrt(x): return x.sqrt()
+    for sig in ([1, 1, 1, 1], [1, 1, 1, -1], [0, 1, 1, 1]):
+        plain = make_algebra(sig)
+        wrapped = make_algebra(sig, wrapper=ident)
+        d = len(sig)
+        full = list(plain.canon2bin.values())
+        g2 = [k for k in full if grade(k) == 2]
+        operands = {'bivector': (g2, [float(rng.randint(1, 5)) for _ in g2]),
+                    'scalar+pss': ([0, 2 ** d - 1], [2.0, 0.5]),
+                    'vector': ([1, 2, 4], [1.0, 2.0, 2.0]),
+                    'two-bivectors': ([3, 12], [1.5, 2.0])}
+        calls = []
+        for onm, (ks, vs) in operands.items():
+            for fn in ('outersin', 'outercos', 'outerexp', 'outertan', 'normalized', 'norm', 'sqrt'):
+                if fn == 'sqrt' and onm != 'scalar+pss':
+                    continue
+                if fn.startswith('outer') and onm == 'scalar+pss':
+                    continue
+                calls.append((onm, fn))
+        seq = calls + calls
+        rng.shuffle(seq)
+        regs = {}
+        for route, alg in (('wrapper', wrapped), ('registered', plain), ('registered+wrapper', wrapped)):
+            if 'registered' in route:
+                regs[route] = {n: alg.register(f) for n, f in (('outersin', r_osin), ('outercos', r_ocos), ('outerexp', r_oexp), ('outertan', r_otan),
+                                                               ('normalized', r_normalized), ('norm', r_norm), ('sqrt', r_sqrt))}
+        fresh_cache = {}
+        for step, (onm, fn) in enumerate(seq):
+            ks, vs = operands[onm]
+            if (onm, fn) not in fresh_cache:
+                xp = MultiVector.fromkeysvalues(make_algebra(sig), tuple(ks), list(vs))
+                try:
+                    fresh_cache[onm, fn] = dict_of(getattr(xp, fn)())
+                except Exception as e:
+                    fresh_cache[onm, fn] = 'raise:' + type(e).__name__
+            exp = fresh_cache[onm, fn]
+            if isinstance(exp, str):
+                continue
+            for route, alg in (('wrapper', wrapped), ('registered', plain), ('registered+wrapper', wrapped)):
+                x = MultiVector.fromkeysvalues(alg, tuple(ks), list(vs))
+                case = {'sig': sig, 'route': route, 'function': fn, 'operand': onm, 'step': step}
+                ctx.case(case, tag='name-route:' + route)
+                try:
+                    got = dict_of(regs[route][fn](x)) if 'registered' in route else dict_of(getattr(x, fn)())
+                except Exception as e:
+                    ctx.violation('name-route-raises', case, str(exp)[:200], repr(e)[:200], key=f'name-route:{fn}:raises')
+                    continue
+                if not close(got, exp):
+                    ctx.violation('name-route', case, str(exp)[:300], str(got)[:300], key=f'name-route:{fn}')
 
 
 def is_study_pattern(S, keys):
